@@ -78,23 +78,23 @@ Definition len128_spec (nbytes : N) : list N := be64 (N.shiftr (8 * nbytes) 64) 
 Definition len128_impl (nblocks : N) (num : nat) : list N :=
   be64 (N.shiftr nblocks 54) ++ be64 (w64 (N.shiftl nblocks 10 + N.shiftl (N.of_nat num) 3)).
 
-Definition sha256_init := init (list N) H256.
+Definition sha256_init := init (list N) H256 0.
 Definition sha256_update := update (list N) sha256_compress 64.
 Definition sha256_finish := finish (list N) sha256_compress sha256_out 64 8 len64_impl.
-Definition sha256 := md_hash (list N) sha256_compress sha256_out H256 64 8 len64_spec.
+Definition sha256 := md_hash (list N) sha256_compress sha256_out H256 64 8 len64_spec 0.
 
-Definition sha224_init := init (list N) H224.
+Definition sha224_init := init (list N) H224 0.
 Definition sha224_finish c := firstn 28 (sha256_finish c).
-Definition sha224 m := firstn 28 (md_hash (list N) sha256_compress sha256_out H224 64 8 len64_spec m).
+Definition sha224 m := firstn 28 (md_hash (list N) sha256_compress sha256_out H224 64 8 len64_spec 0 m).
 
-Definition sha512_init := init (list N) H512.
+Definition sha512_init := init (list N) H512 0.
 Definition sha512_update := update (list N) sha512_compress 128.
 Definition sha512_finish := finish (list N) sha512_compress sha512_out 128 16 len128_impl.
-Definition sha512 := md_hash (list N) sha512_compress sha512_out H512 128 16 len128_spec.
+Definition sha512 := md_hash (list N) sha512_compress sha512_out H512 128 16 len128_spec 0.
 
-Definition sha384_init := init (list N) H384.
+Definition sha384_init := init (list N) H384 0.
 Definition sha384_finish c := firstn 48 (sha512_finish c).
-Definition sha384 m := firstn 48 (md_hash (list N) sha512_compress sha512_out H384 128 16 len128_spec m).
+Definition sha384 m := firstn 48 (md_hash (list N) sha512_compress sha512_out H384 128 16 len128_spec 0 m).
 
 (* ---------------- SHA-1 ---------------- *)
 Definition sha1_f (t : nat) (b c d : N) : N :=
@@ -124,7 +124,7 @@ Definition sha1_compress (st blk : list N) : list N :=
   | _ => st
   end.
 Definition H1 : list N := [0x67452301; 0xEFCDAB89; 0x98BADCFE; 0x10325476; 0xC3D2E1F0].
-Definition sha1_init := init (list N) H1.
+Definition sha1_init := init (list N) H1 0.
 Definition sha1_update := update (list N) sha1_compress 64.
 Definition sha1_finish := finish (list N) sha1_compress sha256_out 64 8 len64_impl.
-Definition sha1 := md_hash (list N) sha1_compress sha256_out H1 64 8 len64_spec.
+Definition sha1 := md_hash (list N) sha1_compress sha256_out H1 64 8 len64_spec 0.
